@@ -165,13 +165,70 @@ def two_port_part(res, rnd, a):
         ticks = 40 * len(va) + 60
         req = {"bm": spec, "ticks": ticks, "env": [{"in": [], "outrecv": [-1, -1]}] * ticks, "dump": "ext"}
         if k % 2 == 1:
-            req["delays"] = {"i2rw": {str(rnd.choice([1, 2, 3])): 1.0}, "r2owa": {str(rnd.choice([1, 2])): 1.0}}
+            req["delays"] = {"i2rw": {str(rnd.choice([1, 2, 3, 7])): 1.0}, "r2owa": {str(rnd.choice([1, 2, 6, 9])): 1.0}}
         reqs.append(req)
         metas.append({"machine": spec, "a": va, "b": vb, "delays": req.get("delays")})
+    # a producer whose r2owa is stalled by an opcode delay and a consumer that is back at its i2rw long before: no value twice
+    for k in range(2 if a.tier == "quick" else 12):
+        rsize = rnd.choice([8, 16])
+        vals = [rnd.randrange(1, 200) for _ in range(4)]
+        prog = []
+        for v in vals:
+            prog += ["rset r0 %d" % v, "r2owa r0 o0", "nop", "nop", "nop"]
+        prog.append("j %d" % len(prog))
+        procs = [{"arch": {"R": 1, "N": 0, "M": 1, "L": 0, "O": 5, "ops": ["rset", "r2owa", "nop", "j"], "mode": "ha", "rsize": rsize}, "prog": prog},
+                 {"arch": {"R": 1, "N": 1, "M": 2, "L": 0, "O": 3, "ops": ["i2rw", "r2o", "inc", "j"], "mode": "ha", "rsize": rsize},
+                  "prog": ["i2rw r0 i0", "inc r1", "r2o r0 o0", "r2o r1 o1", "j 0"]}]     # o1 counts the receptions
+        spec = {"rsize": rsize, "procs": procs, "inputs": 0, "outputs": 2, "bonds": [["p1i0", "p0o0"], ["o0", "p1o0"], ["o1", "p1o1"]]}
+        ticks = 300
+        dl = {"r2owa": {str(rnd.choice([6, 9, 12])): 1.0}}
+        reqs.append({"bm": spec, "ticks": ticks, "env": [{"in": [], "outrecv": [-1, -1]}] * ticks, "dump": "ext", "delays": dl})
+        metas.append({"machine": spec, "one": vals, "delays": dl})
+    # a producer without inputs and with three outputs, each read by its own consumer (the output index of r2owa has more bits than
+    # the processor has input-index bits)
+    for k in range(2 if a.tier == "quick" else 12):
+        rsize = rnd.choice([8, 16])
+        seqs = [[rnd.randrange(1 + 60 * o, 60 * (o + 1)) for _ in range(3)] for o in range(3)]
+        prog = []
+        for j in range(3):
+            for o in range(3):
+                prog += ["rset r0 %d" % seqs[o][j], "r2owa r0 o%d" % o] + ["nop"] * rnd.randint(2, 3)
+        prog.append("j %d" % len(prog))
+        procs = [{"arch": {"R": 1, "N": 0, "M": 3, "L": 0, "O": 7, "ops": ["rset", "r2owa", "nop", "j"], "mode": "ha", "rsize": rsize}, "prog": prog}]
+        for o in range(3):
+            procs.append({"arch": {"R": 1, "N": 1, "M": 1, "L": 0, "O": 4, "ops": ["i2rw", "r2owa", "nop", "j"], "mode": "ha", "rsize": rsize},
+                          "prog": ["i2rw r0 i0", "nop", "nop", "r2owa r0 o0", "nop", "nop", "j 0"]})
+        spec = {"rsize": rsize, "procs": procs, "inputs": 0, "outputs": 3,
+                "bonds": [["p%di0" % (o + 1), "p0o%d" % o] for o in range(3)] + [["o%d" % o, "p%do0" % (o + 1)] for o in range(3)]}
+        ticks = 400
+        reqs.append({"bm": spec, "ticks": ticks, "env": [{"in": [], "outrecv": [-1, -1, -1]}] * ticks, "dump": "ext"})
+        metas.append({"machine": spec, "three": seqs, "delays": None})
     for req, meta, r in zip(reqs, metas, simlib.run_sims(reqs)):
         res.count_case(meta, nontrivial=True)
         if r.get("err"):
-            viol.append(("a two-port consumer machine cannot be simulated: %s" % r["err"], {"request": req, "meta": meta}))
+            viol.append(("a multi-port machine cannot be simulated: %s" % r["err"], {"request": req, "meta": meta}))
+            continue
+        if "one" in meta:
+            seq = []
+            for t in r["ticks"]:
+                if t["out"][0] and (not seq or seq[-1] != t["out"][0]):
+                    seq.append(t["out"][0])
+            count = r["ticks"][-1]["out"][1]
+            want1 = [v for i_, v in enumerate(meta["one"]) if i_ == 0 or v != meta["one"][i_ - 1]]
+            if count != len(meta["one"]) or seq != want1:
+                viol.append(("a producer stalled by opcode delays %s writes the %d values %s; its consumer counts %d receptions and shows %s"
+                             % (meta["delays"], len(meta["one"]), meta["one"], count, seq), {"request": req, "meta": meta}))
+            continue
+        if "three" in meta:
+            outs3 = [[], [], []]
+            prev3 = [False] * 3
+            for t in r["ticks"]:
+                for o in range(3):
+                    if t["outv"][o] and not prev3[o]:
+                        outs3[o].append(t["out"][o])
+                    prev3[o] = t["outv"][o]
+            if outs3 != meta["three"]:
+                viol.append(("a producer writes %s to its three outputs; their consumers forward %s" % (meta["three"], outs3), {"request": req, "meta": meta}))
             continue
         outs = [[], []]
         prev = [False, False]
